@@ -468,6 +468,46 @@ def translate(repo):
             raise Unsupported(f"{DE}: {cls}.run returns {t}")
         out.append(f"Definition gen_{cls}_result (mx : bool) (trial parents : pop (G:=G)) : pop (G:=G) :=\n  {code}.\n")
         fns.append(f"{DE}:{cls}.run[replacement]")
+        # the data flow of run(): which population each stage receives (mutation, crossover, evaluate are abstract stages)
+        pa = fn.args.args[1].arg
+        sym = {}
+        for s_ in fn.body:
+            if isinstance(s_, ast.AnnAssign) and s_.value is not None:
+                s_ = ast.copy_location(ast.Assign(targets=[s_.target], value=s_.value), s_)
+            if isinstance(s_, ast.Assign) and len(s_.targets) == 1 and isinstance(s_.targets[0], ast.Name):
+                v_, t_ = s_.value, s_.targets[0].id
+                if isinstance(v_, ast.Call):
+                    d_ = dotted(v_.func)
+                    if d_ == "Population.from_individuals" and len(v_.args) == 1 and ast.unparse(v_.args[0]) == pa:
+                        sym[t_] = "parents"
+                        continue
+                    if isinstance(v_.func, ast.Attribute) and v_.func.attr == "copy" and not v_.args and isinstance(v_.func.value, ast.Name) and v_.func.value.id in sym:
+                        sym[t_] = sym[v_.func.value.id]
+                        continue
+                    if d_ == "self._mutation" and v_.args and isinstance(v_.args[0], ast.Name) and v_.args[0].id in sym \
+                            and not any(isinstance(n_, ast.Name) and n_.id in sym for a_ in v_.args[1:] for n_ in ast.walk(a_)):
+                        sym[t_] = f"(mutation {sym[v_.args[0].id]})"
+                        continue
+                    if d_ == "self._crossover" and len(v_.args) >= 2 and all(isinstance(a_, ast.Name) and a_.id in sym for a_ in v_.args[:2]) \
+                            and not any(isinstance(n_, ast.Name) and n_.id in sym for a_ in v_.args[2:] for n_ in ast.walk(a_)):
+                        sym[t_] = f"(crossover {sym[v_.args[0].id]} {sym[v_.args[1].id]})"
+                        continue
+                if t_ in sym:
+                    raise Unsupported(f"{DE}:{s_.lineno}: {cls}.run: unsupported assignment to a population {ast.unparse(s_)[:100]}")
+                continue
+            if isinstance(s_, ast.Expr) and isinstance(s_.value, ast.Call) and isinstance(s_.value.func, ast.Attribute) and s_.value.func.attr == "evaluate" \
+                    and isinstance(s_.value.func.value, ast.Name) and s_.value.func.value.id in sym and not s_.value.args:
+                sym[s_.value.func.value.id] = f"(evaluate {sym[s_.value.func.value.id]})"
+                continue
+        rnames = [k_ for k_, v_ in sym.items() if v_.startswith("(evaluate ")]
+        if len(rnames) != 1:
+            raise Unsupported(f"{DE}:{fn.lineno}: {cls}.run: not exactly one evaluated trial population")
+        used = {n_.id for n_ in ast.walk(r.value) if isinstance(n_, ast.Name)} | {n_.id for s2 in fn.body for n_ in ast.walk(s2) if isinstance(s2, ast.Assign) and isinstance(n_, ast.Name)}
+        if rnames[0] not in used:
+            raise Unsupported(f"{DE}:{fn.lineno}: {cls}.run: the evaluated trial population is not what the replacement looks at")
+        out.append(f"Definition gen_{cls}_run (mutation : pop (G:=G) -> pop (G:=G)) (crossover : pop (G:=G) -> pop (G:=G) -> pop (G:=G)) (evaluate : pop (G:=G) -> pop (G:=G)) (mx : bool) (parents : pop (G:=G)) : pop (G:=G) :=\n"
+                   f"  gen_{cls}_result mx {sym[rnames[0]]} parents.\n")
+        fns.append(f"{DE}:{cls}.run[data flow]")
 
     # the keep-fitness rule of the four operators: the fitness array of the Population they return
     for cls in ("BinaryMutation", "BinaryMutationWithDither", "CurrentToPBestMutation", "Crossover"):
